@@ -973,7 +973,7 @@ impl<'a> ActiveFileSet<'a> {
                 continue;
             };
 
-            if file_name.starts_with(&file_prefix) && file_name.ends_with(&file_ext) {
+            if is_file_set_member(file_name, file_prefix, file_ext) {
                 file_set.push(file_name.to_owned());
             }
         }
@@ -1213,6 +1213,34 @@ fn read_file_path_ts(path: &Path) -> Result<&str, io::Error> {
 
 fn file_name(file_prefix: &str, file_ext: &str, ts: &str, id: &str) -> String {
     format!("{}.{}.{}.{}", file_prefix, ts, id, file_ext)
+}
+
+fn is_file_set_member(file_name: &str, file_prefix: &str, file_ext: &str) -> bool {
+    // Files belonging to the set are named `{prefix}.{date}.{counter}.{id}.{ext}`
+    // Other files in the same directory, including those from file sets with
+    // a similar prefix, must not be picked up
+    let Some(file_id) = file_name
+        .strip_prefix(file_prefix)
+        .and_then(|file_name| file_name.strip_prefix('.'))
+        .and_then(|file_name| file_name.strip_suffix(file_ext))
+        .and_then(|file_name| file_name.strip_suffix('.'))
+    else {
+        return false;
+    };
+
+    let mut parts = file_id.split('.');
+
+    match (parts.next(), parts.next(), parts.next(), parts.next()) {
+        (Some(ts), Some(counter), Some(id), None) => {
+            ts.len() > 0
+                && ts.bytes().all(|b| b.is_ascii_digit() || b == b'-')
+                && counter.len() == 8
+                && counter.bytes().all(|b| b.is_ascii_digit())
+                && id.len() == 8
+                && id.bytes().all(|b| b.is_ascii_hexdigit())
+        }
+        _ => false,
+    }
 }
 
 trait Filesystem {
